@@ -311,6 +311,23 @@ func (t *tr) cond(e ast.Expr) string {
 			}
 		}
 	}
+	// p.HasFlag(K): the exported wrapper around p.flags.Has
+	if x, ok := e.(*ast.CallExpr); ok && len(x.Args) == 1 {
+		if se, ok := x.Fun.(*ast.SelectorExpr); ok && se.Sel.Name == "HasFlag" {
+			if p, ok := t.path(se.X); ok && p == "p" {
+				if v, ok := constVal(x.Args[0]); ok {
+					if fd := t.funcs[t.fn.recv+".HasFlag"]; fd != nil && len(fd.Body.List) == 1 {
+						if rs, ok := fd.Body.List[0].(*ast.ReturnStmt); ok && len(rs.Results) == 1 {
+							src := exprStr(rs.Results[0])
+							if src == "p.flags.Has(v)" || src == "bits(p.flags).Has(v)" {
+								return fmt.Sprintf("has p.flags %d", v)
+							}
+						}
+					}
+				}
+			}
+		}
+	}
 	return "(Filler.unknownCond " + leanStr(exprStr(e)) + ")"
 }
 
